@@ -8,8 +8,10 @@ else — which function handles which type, what happens to `null` element resul
 geometry comes back — is the C++ control flow, branch by branch.
 
 Quirks kept on purpose (they are what the code does):
-* `fixCollection` calls the *static* `fix(elem)`, which builds a fresh fixer with `isKeepCollapsed = false`: inside a
-  GeometryCollection collapses are never kept, whatever the caller asked for;
+* `fixCollection` fixes every element with the caller's keep-collapsed setting (since the /repo commit "fix:
+  GeometryFixer::fixCollection must hand keepCollapsed down to the elements"; before, it called the *static* `fix(elem)`,
+  which builds a fresh fixer with `isKeepCollapsed = false`, so collapses inside a GeometryCollection were never kept —
+  finding F5 of C17; that behaviour is kept below as `fixDropping` for the regression clause of the driver);
 * a polygon whose shell collapses is, with keep-collapsed, handed to `fixLineStringElement` (since /repo commit
   1fc4024a4; before it was `fixLineString`, whose `null` became `LINESTRING EMPTY` instead of `POLYGON EMPTY` and broke
   idempotence — finding F4 of C17);
@@ -103,6 +105,18 @@ def Shape.isLineLike : Shape → Bool
   | .line .. => true
   | _ => false
 
+/-- what the element loops apply to each element: `fixPointElement` / `fixLineStringElement` / `fixPolygonElement` of an
+element of the right kind (elements of another kind do not occur in a well-typed Multi*) -/
+def Shape.pointElem : Shape → Option Res
+  | .point e v => fixPointElement e v
+  | _ => none
+def Shape.lineElem (keep : Bool) : Shape → Option Res
+  | .line e c => fixLineStringElement keep e c
+  | _ => none
+def Shape.polyElem (keep : Bool) : Shape → Option Res
+  | .polygon se a c n w => fixPolygonElement keep se a c n w
+  | _ => none
+
 mutual
   /-- `GeometryFixer::getResult` -/
   def fix (keep : Bool) : Shape → Res
@@ -112,30 +126,46 @@ mutual
     | .polygon se a c n w => (fixPolygonElement keep se a c n w).getD (.atom .polygon true)
     | .multiPoint ps =>
       if ps.isEmpty then .atom .multiPoint true
-      else .atom .multiPoint ((ps.filterMap fun p => match p with
-        | .point e v => fixPointElement e v
-        | _ => none).isEmpty)
+      else .atom .multiPoint ((ps.filterMap Shape.pointElem).isEmpty)
     | .multiLine ls =>
       if ls.isEmpty then .atom .multiLineString true
       else
-        let fixed := ls.filterMap fun l => match l with
-          | .line e c => fixLineStringElement keep e c
-          | _ => none
+        let fixed := ls.filterMap (Shape.lineElem keep)
         match fixed with
         | [one] => one
         | _ => if fixed.any (fun r => r.ty != .lineString) then .coll fixed else .atom .multiLineString fixed.isEmpty
     | .multiPolygon ps unionTy =>
       if ps.isEmpty then .atom .multiPolygon true
       else
-        let fixed := (ps.filterMap fun p => match p with
-          | .polygon se a c n w => fixPolygonElement keep se a c n w
-          | _ => none).filter fun r => !r.isEmpty
+        let fixed := (ps.filterMap (Shape.polyElem keep)).filter fun r => !r.isEmpty
         if fixed.isEmpty then .atom .multiPolygon true else .atom unionTy false
-    | .collection gs => if gs.isEmpty then .atom .collection true else .coll (fixList gs)
-  /-- `fixCollection`: every element through the static `fix`, i.e. with keep-collapsed off -/
-  def fixList : List Shape → List Res
+    | .collection gs => if gs.isEmpty then .atom .collection true else .coll (fixList keep gs)
+  /-- `fixCollection`: every element through a fixer of its own with the same keep-collapsed setting -/
+  def fixList (keep : Bool) : List Shape → List Res
     | [] => []
-    | g :: gs => fix false g :: fixList gs
+    | g :: gs => fix keep g :: fixList keep gs
+end
+
+/-! ### the behaviour before the fix of `fixCollection` (regression reference)
+
+`fixDropping` is `fix` as GEOS computed it before `fixCollection` handed keep-collapsed down: the elements of a
+GeometryCollection were fixed by the static `fix(elem)`, i.e. with keep-collapsed off, at every nesting depth.  The
+driver's `keep-collapsed` clause uses it to recognise a relapse: on an input where `fix` and `fixDropping` differ, an
+implementation that does not return `fix` has lost the setting inside a collection again (`Props/C17`:
+`fixDropping_false`, `fixDropping_atomic`, `collection_dropped_keep_collapsed`). -/
+mutual
+  def fixDropping (keep : Bool) : Shape → Res
+    | .collection gs => if gs.isEmpty then .atom .collection true else .coll (fixDroppingList gs)
+    | .point e v => fix keep (.point e v)
+    | .line e c => fix keep (.line e c)
+    | .ring e c v => fix keep (.ring e c v)
+    | .polygon se a c n w => fix keep (.polygon se a c n w)
+    | .multiPoint ps => fix keep (.multiPoint ps)
+    | .multiLine ls => fix keep (.multiLine ls)
+    | .multiPolygon ps u => fix keep (.multiPolygon ps u)
+  def fixDroppingList : List Shape → List Res
+    | [] => []
+    | g :: gs => fixDropping false g :: fixDroppingList gs
 end
 
 /-! ### the result-type rule -/
